@@ -505,6 +505,9 @@ def run_history(ctx, case) -> None:
                 if recreating:
                     remaining = current_areas(record)
                     facts.update(area_facts(sess, remaining))
+                    ctx.count("observed:region-creation-raised")
+                    if facts.get("stretches_on_pre_origin_side", 0) >= 2:
+                        ctx.count("shape:several-stretches-on-pre-origin-side")
                     ctx.violate("region-creation-succeeds", facts, case)
                 else:
                     ctx.violate("mutator-raises", facts, case)
@@ -527,6 +530,8 @@ def run_history(ctx, case) -> None:
                 cleared_since_create = True
                 if record.get_regions():
                     ctx.violate("clear-regions-leaves-no-region", sess.facts(op=name), case)
+                if name == "strip_antismash_annotations" and (current_areas(record) or record.get_protoclusters()):
+                    ctx.violate("strip-leaves-no-area", sess.facts(op=name), case)
             elif name in ("clear_candidate_clusters", "clear_protoclusters", "clear_subregions"):
                 cleared_since_create = True
                 if had_regions:
@@ -553,6 +558,7 @@ def run_history(ctx, case) -> None:
 
 
 def run(ctx):
+    global _INSTALLED
     rng = ctx.rng("worlds")
     for i in ctx.cases(ctx.quota(2500, 200000)):
         world = G.make_world(rng)
@@ -562,7 +568,6 @@ def run(ctx):
         ctx.guard("harness-or-crash", build, run_history, ctx, build)
         hist = dict(world, ops=G.random_history(world, rng))
         ctx.guard("harness-or-crash", hist, run_history, ctx, hist)
-    global _INSTALLED
     instrument.uninstall_all()
     _INSTALLED = False
 
